@@ -997,8 +997,90 @@ func c14mModesSuite(r *Result, rng *rand.Rand, n int) {
 	}
 }
 
+
+// ---- F14d probe: concurrent FIRST prepared sessions (Load-then-Store on cacheStore is not atomic) ----
+//
+// Witness of the Lean theorem C14_first_session_race_counterexample on the real code: goroutines released together call
+// Session(&Session{PrepareStmt: true}) on a database opened WITHOUT Config.PrepareStmt; when two of them miss the Load
+// before either Stores, each creates its own cache (distinct Mux).  Timing-dependent (a few rounds in a thousand).
+// Control (C14_first_session_partial): with a cache already registered (Config.PrepareStmt root) the same burst must
+// always end on ONE cache — anything else is a violation.
+func c14mFirstSessionProbe(r *Result, rounds int) {
+	burst := func(prepareRoot bool) (muxes int, texts int) {
+		n := atomic.AddInt64(&c14mCounter, 1)
+		sqlDB := sql.OpenDB(&recConnector{dsn: fmt.Sprintf("file:c14first%d?mode=memory&cache=shared", n), drv: &sqlite3.SQLiteDriver{}, rec: &Recorder{Off: true}})
+		defer sqlDB.Close()
+		pool := &c14mPool{DB: sqlDB}
+		db, err := gorm.Open(sqlite.Dialector{Conn: pool}, &gorm.Config{PrepareStmt: prepareRoot, Logger: logger.Discard})
+		if err != nil {
+			panic(err)
+		}
+		const g = 12
+		out := make([]*gorm.DB, g)
+		var wg sync.WaitGroup
+		barrier := make(chan struct{})
+		for k := 0; k < g; k++ {
+			wg.Add(1)
+			go func(k int) {
+				defer wg.Done()
+				<-barrier
+				out[k] = db.Session(&gorm.Session{PrepareStmt: true})
+			}(k)
+		}
+		close(barrier)
+		wg.Wait()
+		mux := map[interface{}]bool{}
+		for _, h := range out {
+			if _, pdb := c14mPoolOf(h); pdb != nil {
+				mux[pdb.Mux] = true
+			}
+		}
+		if len(mux) > 1 {
+			// the behavioural consequence: one text through every handle
+			for _, h := range out {
+				var x int
+				h.Raw("select 41 + ?", 1).Scan(&x)
+			}
+			for _, pr := range pool.snapshot() {
+				if strings.HasPrefix(pr.Text, "select 41") {
+					texts++
+				}
+			}
+		}
+		return len(mux), texts
+	}
+	seen, at, preps := 0, 0, 0
+	for i := 0; i < rounds && !expired(); i++ {
+		if m, _ := burst(true); m != 1 {
+			r.Violate(Violation{Kind: "e2e", Suite: "modes", Input: map[string]interface{}{"probe": "concurrent prepared sessions on a PrepareStmt root", "round": i},
+				Observed: fmt.Sprintf("%d distinct caches (Mux)", m), Expected: "one cache: it is registered before any session starts"})
+			return
+		}
+		if m, t := burst(false); m > 1 && seen == 0 {
+			seen, at, preps = m, i+1, t
+			break
+		}
+	}
+	r.Case("modes", "first-session-probe", true)
+	if seen > 0 {
+		what := fmt.Sprintf("gorm API: 12 goroutines call Session(PrepareStmt) at the same time on a database opened without Config.PrepareStmt: %d cache objects (round %d); the same text through every handle: %d PrepareContext calls", seen, at, preps)
+		if listed("F14d-C14-concurrent-first-session") {
+			r.KnownFinding("F14d-C14-concurrent-first-session", what)
+		} else {
+			r.Violate(Violation{Kind: "e2e", Suite: "modes", Input: "first-session-probe", Observed: what, Expected: "one cache per gorm.Open"})
+		}
+	} else {
+		r.Note("probe F14d (concurrent first prepared sessions): not reproduced in %d rounds (timing-dependent)", rounds)
+	}
+}
+
 func init() {
 	replayers["C14/modes"] = func(r *Result, input json.RawMessage) {
+		var name string
+		if json.Unmarshal(input, &name) == nil && name == "first-session-probe" {
+			c14mFirstSessionProbe(r, 20000)
+			return
+		}
 		var p c14mProg
 		if json.Unmarshal(input, &p) != nil {
 			return
@@ -1025,13 +1107,14 @@ func init() {
 		}
 	}
 	register("C14", func(r *Result, rng *rand.Rand, tier string) {
-		nDerive, nModes := 600, 220
+		nDerive, nModes, nFirst := 600, 220, 1500
 		if tier == "thorough" {
-			nDerive, nModes = 8000, 2500
+			nDerive, nModes, nFirst = 8000, 2500, 20000
 		} else if tier == "search" {
-			nDerive, nModes = 3000, 1500
+			nDerive, nModes, nFirst = 3000, 1500, 3000
 		}
 		c14mDeriveSuite(r, rng, nDerive)
 		c14mModesSuite(r, rng, nModes)
+		c14mFirstSessionProbe(r, nFirst)
 	})
 }
